@@ -640,6 +640,14 @@ func (m *lfsModule) streamDownloadWithVerify(r *http.Request, w http.ResponseWri
 			"S3 object exceeds envelope-declared size; refusing to serve")
 		return
 	}
+	if written != expectedSize {
+		m.logger.Error("LFS download size below envelope — object truncated or envelope inconsistent",
+			"bucket", logSafe(bucket), "key", logSafe(key), "expected_size", expectedSize, "read", written)
+		m.tracker.EmitDownloadIntegrityFailed(requestID, bucket, key, "stream", "sha256", expectedSHA, "", written, expectedSize)
+		m.lfsWriteHTTPError(w, requestID, "", http.StatusBadGateway, "integrity_failure",
+			"S3 object is shorter than envelope-declared size; refusing to serve")
+		return
+	}
 
 	actualSHA := hex.EncodeToString(hasher.Sum(nil))
 	if actualSHA != expectedSHA {
